@@ -167,24 +167,46 @@ def bbox_oracle(R: Run, gb, bb, rxy, snap, tol: F, slack_rel: F, case, prefix: s
     grid_oracle(R, b, t, ry, None if snap is None else snap[1], tol, F(A.f), int(ny), sc, key_prefix=f"{prefix}-y", extra=case)
 
 
+ULP = F(1, 2**50)      # a few ulps, relative: the only error a correctly rounded span/shape may carry
+
+
 def shape_oracle(R: Run, gb, bb, shape, snap, slack_rel: F, case, prefix: str):
+    """shape-driven construction: exact shape, pixel size == span/shape (exactly on the exact stream, to a few
+    ulps on doubles), origin and FAR edge: not displaced at all when floating/tight, by less than a pixel when
+    snapped; the far edge moves exactly as the origin does (the size of the box is the size of the region)"""
     l, b, r, t = bb
     ny, nx = shape
     A = gb.affine
+    fl = slack_rel > 0
     R.oracle(tuple(gb.shape) == (ny, nx), f"{prefix}-wrong-shape", case, f"shape {tuple(gb.shape)} requested {(ny, nx)}", sig="shape-exact")
     rx, ry = (r - l) / nx, -(t - b) / ny
-    ok = (abs(F(A.a) - rx) <= abs(rx) * slack_rel and abs(F(A.e) - ry) <= abs(ry) * slack_rel and A.b == 0 and A.d == 0)
-    R.oracle(ok, f"{prefix}-pixel-size-not-span-over-shape", case, f"affine {tuple(A)[:6]} expected pixel size ({float(rx)},{float(ry)})",
+    ps = ULP if fl else F(0)
+    ok = (abs(F(A.a) - rx) <= abs(rx) * ps and abs(F(A.e) - ry) <= abs(ry) * ps and A.b == 0 and A.d == 0)
+    R.oracle(ok, f"{prefix}-pixel-size-not-span-over-shape", case,
+             f"pixel size ({A.a!r},{A.e!r}) but span/shape = ({float(rx)!r},{float(ry)!r}): relative difference "
+             f"({float(abs(F(A.a) - rx) / abs(rx)) if rx else 0:.3g},{float(abs(F(A.e) - ry) / abs(ry)) if ry else 0:.3g})",
              sig="shape-pixel-size")
+    # far corner of the box in exact arithmetic from the returned affine
+    far_x, far_y = F(A.c) + nx * F(A.a), F(A.f) + ny * F(A.e)
+    ex = (max(abs(l), abs(r)) + (r - l)) * ULP * 4 if fl else F(0)      # rounding of nx * fl(span/nx) and of the corner itself
+    ey = (max(abs(b), abs(t)) + (t - b)) * ULP * 4 if fl else F(0)
     if snap is None:
         R.oracle(F(A.c) == l and F(A.f) == t, f"{prefix}-floating-displaced", case,
                  f"origin ({A.c},{A.f}) differs from the region corner ({float(l)},{float(t)})", sig="shape-floating")
+        R.oracle(abs(far_x - r) <= ex and abs(far_y - b) <= ey, f"{prefix}-floating-far-edge-displaced", case,
+                 f"far corner ({float(far_x)!r},{float(far_y)!r}) is ({float((far_x - r) / abs(rx)) if rx else 0:+.4g},"
+                 f"{float((far_y - b) / abs(ry)) if ry else 0:+.4g}) px away from the region's ({float(r)!r},{float(b)!r})", sig="shape-far-floating")
     else:
         sx = max(abs(l), abs(r)) * slack_rel
         sy = max(abs(b), abs(t)) * slack_rel
         ok = abs(F(A.c) - l) < abs(rx) + sx and abs(F(A.f) - t) < abs(ry) + sy
         R.oracle(ok, f"{prefix}-displaced-a-pixel-or-more", case,
                  f"origin ({A.c},{A.f}) vs region corner ({float(l)},{float(t)}), pixel ({float(rx)},{float(ry)})", sig="shape-displacement")
+        ok = (abs((far_x - r) - (F(A.c) - l)) <= ex and abs((far_y - b) - (F(A.f) - t)) <= ey
+              and abs(far_x - r) < abs(rx) + sx and abs(far_y - b) < abs(ry) + sy)
+        R.oracle(ok, f"{prefix}-far-edge-displaced", case,
+                 f"far corner moved by ({float((far_x - r) / abs(rx)):+.4g},{float((far_y - b) / abs(ry)):+.4g}) px but the origin by "
+                 f"({float((F(A.c) - l) / abs(rx)):+.4g},{float((F(A.f) - t) / abs(ry)):+.4g}) px", sig="shape-far-snapped")
         for (o, res, op, sl, nm) in ((F(A.c), rx, snap[0], sx, "x"), (F(A.f), ry, snap[1], sy, "y")):
             q = (o - op * abs(res)) / abs(res)
             R.oracle(abs(q - round(q)) * abs(res) <= sl, f"{prefix}-{nm}-not-aligned", case,
@@ -371,7 +393,7 @@ def run(R: Run):
         call(tuple(F(v) for v in bb), tight, shape, res, anch, tol, "edge-case", True, F(0))
 
     # ---------------- from_geopolygon (exact): reduces to the bounding box of the vertices
-    def poly_case(pts, rx, ry, res, align, shape, tight, anch, tol, mode):
+    def poly_case(pts, rx, ry, res, align, shape, tight, anch, tol, mode, exact=True):
         xs, ys = [p[0] for p in pts], [p[1] for p in pts]
         bb = (min(xs), min(ys), max(xs), max(ys))
         if align is not None and align != (0, 0):
@@ -386,7 +408,7 @@ def run(R: Run):
             px, py = (bb[2] - bb[0]) / shape[1], (bb[3] - bb[1]) / shape[0]
             ok = isx(px) and isx(py) and axis_exact(bb[0], bb[2], px, None if sn is None else sn[0]) and axis_exact(
                 bb[1], bb[3], -py, None if sn is None else sn[1])
-        if not ok or not all(isx(v) for q in pts for v in q):
+        if exact and (not ok or not all(isx(v) for q in pts for v in q)):
             R.count("poly:skipped-inexact")
             return
         out = []
@@ -404,11 +426,16 @@ def run(R: Run):
 
         line = (f"c08 poly {list_s(pts, lambda q: frac_s(q[0]) + ';' + frac_s(q[1]))} {res_tok(res)} "
                 f"{'N' if align is None else frac_s(align[0]) + ';' + frac_s(align[1])} {shape_tok(shape)} {bool_s(tight)} {anch.tok()} {frac_s(tol)}")
-        R.corr(line, fpoly, sig=f"poly|{mode}|{'float' if sn is None else 'snap'}")
         case = {"fn": "GeoBox.from_geopolygon", "line": line}
+        if exact:
+            R.corr(line, fpoly, sig=f"poly|{mode}|{'float' if sn is None else 'snap'}")
+        else:
+            o_ = guarded(fpoly)
+            if not out:
+                R.oracle(False, "from-geopolygon-raises", case, o_, sig="raises")
         # two-sided: exact re-computation on the vertex bounds with the SAME options (incl. tol)
-        want = ref_from_bbox(bb, tight, shape, res, sn, tol)
-        if out or want != "ERR":
+        want = ref_from_bbox(bb, tight, shape, res, sn, tol) if exact else "ERR"
+        if exact and (out or want != "ERR"):
             got = "ERR" if not out else (int(out[0][0].shape[0]), int(out[0][0].shape[1]), [F(float(v)) for v in tuple(out[0][0].affine)[:6]])
             R.oracle(got == want, "from-geopolygon-differs-from-exact-recomputation", case,
                      f"from_geopolygon = {gb_s(out[0][0]) if out else 'raised'} but exact arithmetic on the vertex bounds gives "
@@ -433,7 +460,8 @@ def run(R: Run):
                 R.oracle(inside, "from-geopolygon-vertex-outside", case, f"extent x[{float(xlo)},{float(xhi)}] y[{float(ylo)},{float(yhi)}]",
                          sig="poly-covers")
             else:
-                shape_oracle(R, gb, bb, shape, sn, F(0), case, "from-geopolygon-shape")
+                shape_oracle(R, gb, bb, shape, sn, F(0) if exact else F(1, 10**9), case,
+                             "from-geopolygon-shape" if exact else "from-geopolygon-shape-float")
 
     for _ in range(R.pick(800, 8000)):
         rx = F(rng.choice([-1, 1]) * rng.choice([1, 3, 10, 30])) * F(2) ** rng.randint(-6, 4)
@@ -515,6 +543,99 @@ def run(R: Run):
                         pts2 = [(l, b), (r2, t2), (l, t2)]
                         poly_case(pts2, rx, ry, None, None, (nys, nxs), tight, anch, tol, "matrix-shape")
     R.count("matrix:cases", n_matrix)
+
+    # ---------------- shape-driven branches with span/shape a hair away from an integer or a unit fraction
+    # pixel size k*(1 +- eps) and (1/k)*(1 +- eps), eps in {1e-6 .. 1e-12} (and the dyadic 2^-20 .. 2^-40, for which
+    # every operation is exact so the model is compared too), LARGE shapes (2e4 .. 1e6 px: nothing is allocated),
+    # through from_bbox (ny,nx), from_bbox single-number shape, from_geopolygon and zoom_to(shape)
+    big_shapes = [20000, 30000, 40000, 2**15, 2**16, 100000, 2**17, 250000, 2**18, 500000, 2**20, 1000000]
+    n_anchors = [Anch("s", "default"), Anch("s", "center"), Anch("e", "floating"), Anch("n", F(1, 4))]
+    eps_list = [F(1e-6), F(1e-7), F(1e-9), F(1e-12), F(1, 2**20), F(1, 2**23), F(1, 2**30), F(1, 2**40)]
+    for rep in range(R.pick(3, 12)):
+        for k in (1, 2, 3, 10, 30, 100):
+            for inv in (False, True):
+                for sg in (1, -1):
+                    for eps in eps_list:
+                        base = 1.0 / k if inv else float(k)
+                        px = F(base * float(1 + sg * eps))             # the double pixel size actually aimed at
+                        py = F((1.0 / rng.choice([1, 2, 3, 10]) if rng.random() < 0.5 else float(rng.choice([1, 2, 3, 10, 30])))
+                               * float(1 + rng.choice([1, -1]) * rng.choice(eps_list)))
+                        nx, ny = rng.choice(big_shapes), rng.choice(big_shapes)
+                        anch = rng.choice(n_anchors)
+                        tight = rng.random() < 0.4
+                        sn = anch.snap(tight)
+                        tol = rng.choice(TOLS)
+                        l = F(float(rng.choice([0, 500000, -7, rng.randint(-10**6, 10**6)]) * px)) if rng.random() < 0.7 else F(500000.0)
+                        b = F(float(rng.choice([0, 6000000, 13, rng.randint(-10**6, 10**6)]) * py))
+                        if eps.denominator <= 2**40 and (not inv or k in (1, 2)) and rng.random() < 0.8:
+                            # dyadic pixel size: choose operands so that every float operation is exact (model compared too)
+                            nx, ny = 2 ** rng.randint(15, 20), 2 ** rng.randint(15, 20)
+                            py = F(2) ** rng.randint(-2, 3) * (1 + rng.choice([1, -1]) * F(1, 2 ** rng.choice([20, 23, 30])))
+                            l, b = rng.choice([0, 3, -7, 500]) * px, rng.choice([0, 5, -11, 6000]) * py
+                        r, t = F(float(l) + float(nx * px)), F(float(b) + float(ny * py))
+                        bb = (l, b, r, t)
+                        ex = (isx((r - l) / nx) and isx((t - b) / ny) and isx(r - l) and isx(t - b)
+                              and axis_exact(l, r, (r - l) / nx, None if sn is None else sn[0])
+                              and axis_exact(b, t, -(t - b) / ny, None if sn is None else sn[1]))
+                        tag = "shape-near-int" + ("" if ex else "-float")
+                        sl = F(0) if ex else F(1, 10**9)
+                        call(bb, tight, (ny, nx), None, anch, tol, tag, ex, sl)
+                        poly_case(rng.choice([[(l, b), (r, b), (r, t)], [(l, t), (r, b), (r, t), (l, b)]]), None, None, None, None,
+                                  (ny, nx), tight, anch, tol, tag, exact=ex)
+                        # single-number shape: square pixels from the longest side
+                        if (r - l) != (t - b):
+                            n = nx if (r - l) > (t - b) else ny
+                            rr = (r - l) / n if (r - l) > (t - b) else (t - b) / n
+                            ex1 = (isx(rr) and axis_exact(l, r, rr, None if sn is None else sn[0]) and axis_exact(b, t, -rr, None if sn is None else sn[1]))
+                            call(bb, tight, n, None, anch, tol, "int-" + ("shape-near-int" if ex1 else "shape-near-int-float"), ex1,
+                                 F(0) if ex1 else F(1, 10**9))
+                        # zoom_to(shape): same region, new shape; pixel = old pixel * N/n, origin kept, far edge kept
+                        Nx0, Ny0 = rng.choice([1, 7, 100, 4096]), rng.choice([1, 7, 100, 4096])
+                        if rng.random() < 0.6:
+                            # integer shape ratios N/n a hair away from k or 1/k (needs > 1e6 px on the larger side)
+                            big = rng.choice([2000000, 3000000, 5000000, 10000000])
+                            d1, d2 = rng.choice([1, -1, 2, -3]), rng.choice([1, -1, 2, -3])
+                            if inv:
+                                Nx0, Ny0, nx, ny = big, big, k * big + d1, k * big + d2        # N/n = (1/k)(1 -+ ~1/(k N))
+                            else:
+                                Nx0, Ny0, nx, ny = k * big + d1, k * big + d2, big, big        # N/n = k +- d/n
+                            r, t = F(float(l) + float(nx * px)), F(float(b) + float(ny * py))
+                        a0, e0 = float((r - l) / Nx0), -float((t - b) / Ny0)
+                        from affine import Affine as _Aff
+                        src = GeoBox((Ny0, Nx0), _Aff(a0, 0, float(l), 0, e0, float(t)), CRS)
+                        case = {"fn": "GeoBox.zoom_to(shape)", "src": gb_s(src), "shape": [ny, nx]}
+                        try:
+                            z = src.zoom_to((ny, nx))
+                            wx, wy = F(a0) * Nx0 / nx, F(e0) * Ny0 / ny
+                            zx, zy = F(z.affine.a), F(z.affine.e)
+                            ok = (tuple(z.shape) == (ny, nx) and abs(zx - wx) <= abs(wx) * ULP and abs(zy - wy) <= abs(wy) * ULP
+                                  and z.affine.b == 0 and z.affine.d == 0)
+                            R.oracle(ok, "zoom-to-shape-pixel-size", case,
+                                     f"zoom_to({(ny, nx)}) has shape {tuple(z.shape)} pixel ({z.affine.a!r},{z.affine.e!r}); "
+                                     f"old pixel * N/n = ({float(wx)!r},{float(wy)!r})", sig="zoom-shape-pixel")
+                            fx0, fy0 = F(a0) * Nx0 + l, F(e0) * Ny0 + t
+                            fx1, fy1 = zx * nx + F(z.affine.c), zy * ny + F(z.affine.f)
+                            ok = (F(z.affine.c) == l and F(z.affine.f) == t
+                                  and abs(fx1 - fx0) <= (abs(fx0) + abs(l)) * ULP * 4 and abs(fy1 - fy0) <= (abs(fy0) + abs(t)) * ULP * 4)
+                            R.oracle(ok, "zoom-to-shape-region-changed", case,
+                                     f"origin ({z.affine.c!r},{z.affine.f!r}) far corner ({float(fx1)!r},{float(fy1)!r}); the source covers "
+                                     f"({float(l)!r},{float(t)!r})..({float(fx0)!r},{float(fy0)!r}): far corner off by "
+                                     f"({float((fx1 - fx0) / abs(wx)):+.4g},{float((fy1 - fy0) / abs(wy)):+.4g}) new px", sig="zoom-shape-region")
+                            # single number: longest side
+                            nmax = max(Nx0, Ny0)
+                            m = rng.choice(big_shapes)
+                            zi = src.zoom_to(m)
+                            wxi, wyi = F(a0) * nmax / m, F(e0) * nmax / m
+                            ok = (max(zi.shape) == m and abs(F(zi.affine.a) - wxi) <= abs(wxi) * ULP * 2
+                                  and abs(F(zi.affine.e) - wyi) <= abs(wyi) * ULP * 2
+                                  and F(zi.affine.c) == l and F(zi.affine.f) == t)
+                            cov = (F(zi.affine.a) * zi.shape[1] + l >= fx0 - (abs(fx0) + abs(l)) * ULP * 4
+                                   and F(zi.affine.e) * zi.shape[0] + t <= fy0 + (abs(fy0) + abs(t)) * ULP * 4)
+                            R.oracle(ok and cov, "zoom-to-int-shape-contract", dict(case, shape=m),
+                                     f"zoom_to({m}) -> shape {tuple(zi.shape)} pixel ({zi.affine.a!r},{zi.affine.e!r}), "
+                                     f"expected pixel ({float(wxi)!r},{float(wyi)!r}), covers={cov}", sig="zoom-int-shape")
+                        except Exception as exn:  # pylint: disable=broad-except
+                            R.oracle(False, "zoom-to-shape-raises", case, repr(exn), sig="raises")
 
     # zoom_to(resolution=) forwards to from_bbox(self.boundingbox, resolution=, tight=True) with the default tol
     from affine import Affine
